@@ -233,3 +233,210 @@ func runFeatureBits(c *core.Ctx) []core.Obligation {
 	}
 	return b.out
 }
+
+// ---- R-FLAGAFFINE: proto's wrapper codecs transform the flags the same way when sizing and when
+// encoding -----------------------------------------------------------------------------------------
+
+func init() {
+	Register(&Rule{
+		ID:    "R-FLAGAFFINE",
+		Doc:   "proto's wrapper constructors (pointer, slice, map, struct …SizeFuncOf / …EncodeFuncOf): the flags argument of every call to a wrapped codec is evaluated as (flags & keep) | set by abstract interpretation of &, |, &^ with constants and of the helpers with/without/only; the set of (keep, set) pairs of the size closure equals that of the encode closure of the same constructor family — a bit that one side drops or adds and the other does not (toplevel, wantzero, inline, zigzag) makes Size describe another encoding than the one written",
+		Props: []string{"C16", "C03"},
+		Min:   map[string]int{"C16": 2},
+		Run:   runFlagAffine,
+	})
+}
+
+type affine struct {
+	keep, set uint64
+	ok        bool
+}
+
+func evalAffine(v ssa.Value, root ssa.Value, bind map[ssa.Value]affine, depth int) affine {
+	if depth > 8 {
+		return affine{}
+	}
+	if a, ok := bind[v]; ok {
+		return a
+	}
+	if v == root {
+		return affine{keep: ^uint64(0), ok: true}
+	}
+	if k, ok := constUint(v); ok {
+		return affine{set: k, ok: true}
+	}
+	switch x := v.(type) {
+	case *ssa.Convert:
+		return evalAffine(x.X, root, bind, depth)
+	case *ssa.ChangeType:
+		return evalAffine(x.X, root, bind, depth)
+	case *ssa.UnOp:
+		if x.Op == token.XOR {
+			a := evalAffine(x.X, root, bind, depth)
+			if a.ok && a.keep == 0 {
+				return affine{set: ^a.set, ok: true}
+			}
+		}
+		return affine{}
+	case *ssa.BinOp:
+		a, c := evalAffine(x.X, root, bind, depth), evalAffine(x.Y, root, bind, depth)
+		if !a.ok || !c.ok {
+			return affine{}
+		}
+		// one side must be a constant (keep == 0) for the result to stay affine
+		if a.keep != 0 && c.keep != 0 {
+			if x.Op == token.OR {
+				// (p&k1|s1) | (p&k2|s2) = p&(k1|k2) | (s1|s2)
+				return affine{keep: (a.keep | c.keep) &^ (a.set | c.set), set: a.set | c.set, ok: true}
+			}
+			return affine{}
+		}
+		if a.keep == 0 {
+			a, c = c, a // c is the constant now, except for AND_NOT below
+			if x.Op == token.AND_NOT {
+				return affine{} // const &^ var
+			}
+		}
+		k := c.set
+		switch x.Op {
+		case token.AND:
+			return affine{keep: a.keep & k, set: a.set & k, ok: true}
+		case token.OR:
+			return affine{keep: a.keep &^ k, set: a.set | k, ok: true}
+		case token.AND_NOT:
+			return affine{keep: a.keep &^ k, set: a.set &^ k, ok: true}
+		}
+		return affine{}
+	case *ssa.Phi:
+		var out affine
+		for i, e := range x.Edges {
+			a := evalAffine(e, root, bind, depth+1)
+			if !a.ok {
+				return affine{}
+			}
+			if i == 0 {
+				out = a
+			} else if a != out {
+				return affine{}
+			}
+		}
+		return out
+	case *ssa.Call:
+		f := staticCallee(x.Common())
+		if f == nil || f.Blocks == nil || len(f.Blocks) != 1 {
+			return affine{}
+		}
+		nb := map[ssa.Value]affine{}
+		for i, p := range f.Params {
+			if i < len(x.Common().Args) {
+				nb[p] = evalAffine(x.Common().Args[i], root, bind, depth+1)
+			}
+		}
+		for _, in := range f.Blocks[0].Instrs {
+			if r, ok := in.(*ssa.Return); ok && len(r.Results) == 1 {
+				return evalAffine(r.Results[0], nil, nb, depth+1)
+			}
+		}
+	}
+	return affine{}
+}
+
+func runFlagAffine(c *core.Ctx) []core.Obligation {
+	b := newOb(c, "R-FLAGAFFINE", "C16", "C03")
+	type side struct {
+		fn     *ssa.Function
+		xforms map[string]bool
+		opaque bool
+	}
+	fams := map[string]map[string]*side{} // family -> "Size"/"Encode" -> side
+	for _, fn := range c.RepoFunctions() {
+		name := shortName(fn)
+		if fn.Blocks == nil || fn.Parent() == nil || !strings.HasPrefix(name, "proto.") {
+			continue
+		}
+		parent := fn.Parent().Name()
+		var kind string
+		switch {
+		case strings.HasSuffix(parent, "SizeFuncOf"):
+			kind = "Size"
+		case strings.HasSuffix(parent, "EncodeFuncOf"):
+			kind = "Encode"
+		default:
+			continue
+		}
+		fam := strings.TrimSuffix(strings.TrimSuffix(parent, "SizeFuncOf"), "EncodeFuncOf")
+		var fp *ssa.Parameter
+		for _, p := range fn.Params {
+			if strings.HasSuffix(p.Type().String(), "proto.flags") {
+				fp = p
+			}
+		}
+		if fp == nil {
+			continue
+		}
+		if fams[fam] == nil {
+			fams[fam] = map[string]*side{}
+		}
+		s := fams[fam][kind]
+		if s == nil {
+			s = &side{fn: fn, xforms: map[string]bool{}}
+			fams[fam][kind] = s
+		}
+		for _, ci := range callsIn(fn) {
+			cc := ci.Common()
+			if staticCallee(cc) != nil || cc.IsInvoke() {
+				continue
+			}
+			if _, isB := cc.Value.(*ssa.Builtin); isB {
+				continue
+			}
+			for _, a := range cc.Args {
+				if !strings.HasSuffix(a.Type().String(), "proto.flags") {
+					continue
+				}
+				af := evalAffine(a, fp, nil, 0)
+				if !af.ok {
+					s.opaque = true
+					continue
+				}
+				s.xforms[fmt.Sprintf("(flags & %#x) | %#x", af.keep&0xffff, af.set&0xffff)] = true
+			}
+		}
+	}
+	var names []string
+	for f := range fams {
+		names = append(names, f)
+	}
+	sort.Strings(names)
+	n := 0
+	for _, fam := range names {
+		sz, en := fams[fam]["Size"], fams[fam]["Encode"]
+		if sz == nil || en == nil || (len(sz.xforms) == 0 && len(en.xforms) == 0) {
+			continue
+		}
+		key := "flagaffine:proto." + fam
+		list := func(m map[string]bool) []string {
+			var out []string
+			for k := range m {
+				out = append(out, k)
+			}
+			sort.Strings(out)
+			return out
+		}
+		if sz.opaque || en.opaque {
+			b.addP([]string{"C16", "C03"}, core.Info, key, c.FuncPos(sz.fn), "a flags argument of this family is not an affine function of the closure's own flags (makeFlags of a field): decided by R-FLAGPASS")
+			continue
+		}
+		n++
+		ls, le := list(sz.xforms), list(en.xforms)
+		if strings.Join(ls, ";") == strings.Join(le, ";") {
+			b.ok(key, c.FuncPos(sz.fn), fmt.Sprintf("size and encode hand the wrapped codec %v", ls))
+		} else {
+			b.bad(key, c.FuncPos(en.fn), fmt.Sprintf("proto.%sSizeFuncOf hands the wrapped codec %v, proto.%sEncodeFuncOf hands it %v: the codec is sized under other flags than it is encoded under (a Message codec that is told it is at top level when sized and not when encoded writes a length prefix that Size did not count — MarshalTo into Size(v) bytes fails with a short buffer)", fam, ls, fam, le))
+		}
+	}
+	if n == 0 {
+		b.und("flagaffine:-", "-", "no proto wrapper family with affine flags arguments on both sides")
+	}
+	return b.out
+}
